@@ -224,6 +224,42 @@ def run(F, ck, tier):
             ck.ob('R19.2', 'rayon:%s:%s' % (meth, fnq), False, 'schedule-dependent or unreviewed rayon combinator %s in %s: results may depend on thread interleaving' % (meth, d), c['s'])
     ck.floor('R19.2', 'calls into rayon / maybe_rayon', nray, 60)
     ck.ob('R19.2', 'rayon:allowed-set', True, 'all other rayon calls use order-preserving combinators (%d calls)' % nray)
+    # ---------------------------------------------------------------- R19.7 the oracle behind the circuit key is never salted
+    ck.rule('R19.7', 'the constants/sigmas commitment, whose cap is the circuit key, is built without blinding (salts are fresh randomness: a salted key differs between two builds of the same circuit)')
+    tb = F.one('CircuitBuilder::try_build_with_options', crate='plonky2')
+    cs = [f for f in F.fns.values() if f.crate == 'plonky2' and f.d.endswith('PlonkOracle::CONSTANTS_SIGMAS')]
+    if tb is None or len(cs) != 1 or cs[0].body is None:
+        ck.ob('R19.7', 'anchor', False, 'ANCHOR-MISSING try_build_with_options / PlonkOracle::CONSTANTS_SIGMAS (%d)' % len(cs))
+    else:
+        lit = None
+        for x in walk(cs[0].body):
+            if x.get('k') == 'Struct':
+                for n, i in x['f']:
+                    if n == 'blinding' and i.get('k') == 'Lit':
+                        lit = i.get('v')
+        okc = lit in (False, 'false', 0)
+        ck.ob('R19.7', 'key-oracle.const', okc, 'PlonkOracle::CONSTANTS_SIGMAS.blinding is false' if okc else
+              'PlonkOracle::CONSTANTS_SIGMAS.blinding is %r: the constants/sigmas oracle would be salted with fresh randomness, so the circuit digest of one circuit program differs from build to build' % lit, '%s:%d' % (cs[0].file, cs[0].line))
+        calls = [x for x in walk(tb.body) if x.get('k') == 'Call' and parse_path(callee(x) or '')[1] == 'from_values' and
+                 any(y.get('k') == 'Local' and 'constants_sigmas' in (y.get('n') or '') for a in x.get('a', [])[:1] for y in walk(a))]
+        if len(calls) != 1 or len(calls[0]['a']) < 3:
+            ck.ob('R19.7', 'key-oracle.commit', False, 'ANCHOR-MISSING: the PolynomialBatch::from_values call on the constants/sigmas vectors (%d candidates)' % len(calls), '%s:%d' % (tb.file, tb.line))
+        else:
+            a = calls[0]['a'][2]
+
+            def static_false(e):
+                while e.get('k') in ('Paren', 'Cast'):
+                    e = e['e']
+                if e.get('k') == 'Lit':
+                    return e.get('v') in (False, 'false', 0)
+                if e.get('k') == 'Field' and e['n'] == 'blinding' and e['e'].get('k') == 'Def' and e['e']['d'].endswith('CONSTANTS_SIGMAS'):
+                    return okc
+                if e.get('k') == 'Bin' and e.get('op') == 'And':
+                    return static_false(e['l']) or static_false(e['r'])
+                return False
+            okb = static_false(a)
+            ck.ob('R19.7', 'key-oracle.commit', okb, 'the blinding argument of the constants/sigmas commitment is statically false' if okb else
+                  'the constants/sigmas commitment is built with a blinding argument that is not statically false: under zero-knowledge the circuit key would be salted and differ between builds', a.get('s'))
     # ---------------------------------------------------------------- R19.6 packed strides need a size guard
     ck.rule('R19.6', 'a loop that walks a domain in strides of the packing width (step_by(P::WIDTH), slicing i..i+WIDTH) sits in a function that compares the domain size with WIDTH (fallback or assertion): the width is 1, 4 or 8 depending on the build, a domain shorter than it must not make only SIMD builds fail')
     nstr = 0
